@@ -117,6 +117,9 @@ WellFormed(a) == /\ a.kt \in KeyTypes /\ a.kind \in Kinds(a.kt) /\ DOMAIN a.p = 
 (*   id, req          k.IDRequirement()                  phas   k.Parameters().HasIDRequirement()          *)
 (*   hasprefix,prefix k.OutputPrefix() (hex)             haskid, kid, kidset   k.KID() (JWT)               *)
 (*   unstable         accessors whose second call returned another value than the first                   *)
+(*   aliased          accessors whose value changed after the byte slices returned by earlier calls were   *)
+(*                    overwritten (the value must not depend on slices handed out before; whose memory a   *)
+(*                    returned slice is, is the statement of C19 and judged there)                        *)
 (*   pbuilt, pbuiltR  k.Parameters().Equal(P) / P.Equal(k.Parameters()) for the parameters P given to the  *)
 (*                    constructor                                                                          *)
 (*   pfresh, pfreshR  P.Equal(P2) / P2.Equal(P) for a second parameters object made from the same record   *)
@@ -145,6 +148,7 @@ JudgeKey(a, o) ==
   ELSE IF o.haskid /\ <<o.kid, o.kidset>> # KidOf(a, o.ckid)
          THEN <<"doc: KID() is not the documented function of (kid strategy, id, custom kid)", pre, a.p.kidStrategy, KidOf(a, o.ckid)[1]>>
   ELSE IF o.unstable # <<>> THEN <<"doc: an accessor returns another value on its second call", pre, o.unstable[1]>>
+  ELSE IF o.aliased # <<>> THEN <<"doc: an accessor returns another value after a byte slice it returned earlier was overwritten", pre, o.aliased[1]>>
   ELSE IF o.pub.has # (a.kind = "private") THEN <<"exp: which key types have a PublicKey accessor", pre>>
   ELSE IF ~o.pub.has THEN <<>>
   ELSE IF o.pub.err THEN <<"doc: PublicKey() of a valid private key returns an error", pre>>
